@@ -13,8 +13,8 @@ TECHNIQUE = 'Hypothesis PBT with harness-owned clock (all 128 calibration outcom
 LEVEL = 'Generated-input exploration plus a complete enumeration of the timing-calibration outcomes on fixed data sets: the distance table is compared with the true minima after every selection step (wrapper), each selection is a farthest candidate, identical to FPS when tie-free. No absence claim: strength = the counted distinct non-trivial cases in the evidence.'
 BUDGET = {"quick": 500, "thorough": 6000}
 EXHAUSTIVE_PARTS = {
-    "quick": ["all 128 outcomes of the 7-step timing bisection (harness-owned clock) x 2 fixed clustered data sets"],
-    "thorough": ["all 128 outcomes of the 7-step timing bisection (harness-owned clock) x 12 fixed data sets "
+    "quick": ["2 fixed data sets with more than 1024 points (1100, 1500) through the pruned branch", "all 128 outcomes of the 7-step timing bisection (harness-owned clock) x 2 fixed clustered data sets"],
+    "thorough": ["6 fixed data sets with 1100..3000 points", "all 128 outcomes of the 7-step timing bisection (harness-owned clock) x 12 fixed data sets "
                  "(clustered / uniform / duplicated / lattice, 12..80 points)"],
 }
 RULE = ("Cases: sample matrices of kinds clustered (pruning active), generic, dup, lattice, eighths with 3..40 points "
@@ -67,7 +67,7 @@ def strategy_(draw, tier):
     big = tier == "thorough"
     n = draw(st.integers(3, 150 if big else 40))
     m = draw(st.integers(2, 5))
-    kind = draw(st.sampled_from(["clustered", "clustered", "generic", "dup", "lattice", "eighths"]))
+    kind = draw(st.sampled_from(["clustered", "clustered", "generic", "dup", "lattice", "eighths", "tiny", "huge"]))
     X = gen.matrix(draw, n, m, kind)
     init = draw(st.one_of(st.integers(0, n - 1), st.just("random")))
     req = S.draw_request(draw, n, minimum=1, forms=("int", "int", "none", "float"))
@@ -99,7 +99,18 @@ def fixed_dataset(j):
     return rng.integers(-3, 4, size=(n, m)).astype(float), "lattice"
 
 
+def large_cases(tier):
+    """More than 1024 points (any block-wise or chunked evaluation must cover the last partial block)."""
+    sizes = [(1100, 1.0), (1500, 0.7)] if tier == "quick" else [(1100, 1.0), (1500, 0.7), (2600, 0.9), (3000, 1.0), (2100, None), (1300, 0.3)]
+    for j, (n, ff) in enumerate(sizes):
+        rng = np.random.default_rng(2000 + j)
+        X = rng.uniform(-1, 1, size=(n, 2)) if j % 2 == 0 else rng.normal(size=(n, 3))
+        yield {"kind": "large", "X": X, "initialize": j, "request": 10 + j, "full_fraction": ff, "n_trial": 1, "word": 127, "random_state": 0}
+
+
 def exhaustive(tier):
+    for c in large_cases(tier):
+        yield c
     nd = 2 if tier == "quick" else 12
     for j in range(nd):
         X, kind = fixed_dataset(j if tier == "thorough" else 4 * j)
@@ -110,10 +121,19 @@ def exhaustive(tier):
                    "full_fraction": None, "n_trial": 1 + word % 3, "word": word, "random_state": 0}
 
 
+def big_D(X):
+    """Explicit-difference squared distances without the (n, n, m) temporary."""
+    D = np.zeros((len(X), len(X)))
+    for c in range(X.shape[1]):
+        d = X[:, c][:, None] - X[:, c][None, :]
+        D += d * d
+    return D
+
+
 def check(case, ctx):
     X = case["X"]
     n = len(X)
-    D = S.fps_D(X, "sample")
+    D = S.fps_D(X, "sample") if n <= 400 else big_D(X)
     scale = float((X ** 2).sum(1).max())
     tol = 1e-9 * scale + 1e-300
     ff = case["full_fraction"]
